@@ -103,7 +103,7 @@ THOROUGH = QUICK + ['fccint', 'wurtzite']
 
 def sections(tier):
     S = run.Section
-    return [S('dipoles:' + c, dipoles(c), budget_s=175 if tier == 'quick' else 3000, replayer='dipoles', config=c, maxpaths=4, timeout_ms=60000)
+    return [S('dipoles:' + c, dipoles(c), budget_s=175 if tier == 'quick' else 1200, replayer='dipoles', config=c, maxpaths=4, timeout_ms=60000)
             for c in (QUICK if tier == 'quick' else THOROUGH)]
 
 
